@@ -23,7 +23,7 @@ SCORES = ["k2", "bdeu", "bds", "bic", "aic"]
 
 def generate(streams, tier):
     r = streams.s("kind")
-    world = W.gen_bn(streams, max_n=5, min_n=2, max_card=4, max_parents=3, max_joint=1024, force_str_labels=True, allow_card1=r.random() < 0.2,
+    world = W.gen_bn(streams, max_n=5, min_n=2, max_card=4, max_parents=3, max_joint=1024, force_str_labels="or_int", allow_card1=r.random() < 0.2,
                      state_modes=[("str", 3), ("int_sorted", 2)])
     rd = streams.s("data")
     nrows = rd.choice([1, 2, 4, 8, 15, 25, 40])
